@@ -21,7 +21,7 @@ RULE = ("scenarios = (number of stations, join times, pre-loaded tickets, per-st
 ASSUMPTIONS = ["all stations share root and AA (the property's configurations)",
                "P2PCD progress is counted in messages of the unknown sender after the receiver's own next CAM has been delivered to it",
                "the certificate-inclusion rule is judged in the 'must include' direction with 1 ms slack on the 1 s boundary"]
-REQUIRED_COUNTERS = ["must_carry_certificate_on_peer_request_checked", "messages_emitted", "envelopes_decoded", "must_accept_checked", "accepted", "p2pcd_followed", "digest_of_unknown_ticket_seen", "must_carry_certificate_checked"]
+REQUIRED_COUNTERS = ["crowd_scenarios", "must_carry_certificate_on_peer_request_checked", "messages_emitted", "envelopes_decoded", "must_accept_checked", "accepted", "p2pcd_followed", "digest_of_unknown_ticket_seen", "must_carry_certificate_checked"]
 
 LAT, LON = 415000000, 21000000
 PSID = {"cam": 36, "vam": 638, "denm": 37, "generic": 99}
@@ -49,6 +49,25 @@ def gen(rng):
             ev.append({"t": round(st[i]["join"] + rng.uniform(0.1, 6.5), 4), "s": i, "kind": rng.choice(("denm", "generic"))})
     ev.sort(key=lambda e: (e["t"], e["s"]))
     return {"stations": st, "events": ev}
+
+
+def gen_crowd(rng):
+    """Directed class: more senders than any small bounded table holds.  Ten or more stations exchange digest-signed CAMs; one
+    station joins late knowing none of their tickets and has to learn ALL of them through the certificate request mechanism."""
+    n = rng.randrange(10, 13)
+    st = [{"join": 0.0, "preloaded": False, "dlat": rng.randrange(-2000, 2000), "dlon": rng.randrange(-2000, 2000)} for _ in range(n - 1)]
+    st.append({"join": rng.choice((1.2, 1.45, 1.7)), "preloaded": False, "dlat": 0, "dlon": 0})
+    ev = []
+    for i in range(n):
+        # 5 Hz: two further messages of a sender take 0.4 s, well inside its 1 s certificate period -- a ticket that is never
+        # asked for stays unknown for longer than the two exchanges the property grants
+        period = 0.2
+        t = st[i]["join"] + rng.uniform(0.01, period)
+        while t < 3.6:
+            ev.append({"t": round(t, 4), "s": i, "kind": "cam"})
+            t += period
+    ev.sort(key=lambda e: (e["t"], e["s"]))
+    return {"stations": st, "events": ev, "crowd": True}
 
 
 def run_case(c, W, res):
@@ -240,7 +259,9 @@ def run_case(c, W, res):
 def run_shard(spec, res):
     rng = random.Random(spec["seed"])
     for k in range(spec["cases"]):
-        c = gen(rng)
+        c = gen_crowd(rng) if spec.get("crowd") and k == 0 else gen(rng)
+        if c.get("crowd"):
+            res.count("crowd_scenarios")
         run_case(c, None, res)
         res.case(repr(c))
         if k == 0:
@@ -249,8 +270,8 @@ def run_shard(spec, res):
 
 def shards(tier, seed):
     if tier == "thorough":
-        return [{"seed": seed * 89 + i, "cases": 320} for i in range(16)]
-    return [{"seed": seed * 89 + i, "cases": 5} for i in range(12)]
+        return [{"seed": seed * 89 + i, "cases": 320, "crowd": i < 8} for i in range(16)]
+    return [{"seed": seed * 89 + i, "cases": 5} for i in range(12)] + [{"seed": seed * 97 + i, "cases": 1, "crowd": True} for i in range(2)]
 
 
 def replay(case, res):
